@@ -142,6 +142,25 @@ func GenE2(prop string, seed uint64) *Program {
 		scenario = "feeds"
 		prog.NColl = 1 + r.Intn(2)
 		nk = 1 + r.Intn(3)
+	case "C09":
+		scenario = "backfill-race"
+		prog.NColl = 1 + r.Intn(2)
+		nk = 1 + r.Intn(3)
+	case "C15":
+		scenario = "ckpt"
+		nk = 1 + r.Intn(3)
+	case "C16":
+		scenario = "term"
+		prog.NColl = 2
+		prog.NHandles = 2
+		prog.OnDisk = r.Chance(50)
+		nk = 1 + r.Intn(2)
+	case "C20":
+		scenario = "shutdown"
+		prog.NColl = 1 + r.Intn(2)
+		prog.NHandles = 1 + r.Intn(2)
+		prog.OnDisk = r.Chance(40)
+		nk = 1 + r.Intn(2)
 	}
 	prog.Scenario = scenario
 	g.ncoll = prog.NColl
@@ -243,6 +262,158 @@ func GenE2(prop string, seed uint64) *Program {
 			}
 			prog.Tasks = append(prog.Tasks, ops)
 		}
+	}
+	switch scenario {
+	case "backfill-race":
+		g.setupDocs(prog, 60)
+		prog.NoLin = false
+		w := e2Weights["feeds"]
+		for t := 0; t < 1+r.Intn(2); t++ {
+			var ops []Op
+			for i := 0; i < 2+r.Intn(4); i++ {
+				ops = append(ops, g.e2op(g.weighted(w), prog.NHandles))
+			}
+			prog.Tasks = append(prog.Tasks, ops)
+		}
+		for i := 0; i < 1+r.Intn(2); i++ {
+			fs := FeedSpec{ID: fmt.Sprintf("bf%d", i), Handle: r.Intn(prog.NHandles), Coll: r.Intn(prog.NColl), Backfill: "zero"}
+			var ops []Op
+			if r.Chance(40) { // let a write go first
+				ops = append(ops, g.e2op("Set", prog.NHandles))
+			}
+			ops = append(ops, Op{Kind: "StartFeed", Feed: &fs})
+			prog.Tasks = append(prog.Tasks, ops)
+		}
+	case "ckpt":
+		g.setupDocs(prog, 50)
+		w := weights{"Set": 6, "SetRaw": 2, "Add": 3, "WriteCas": 4, "Delete": 4, "Incr": 3, "Update": 3, "SetXattrs": 2, "WriteWithXattrs": 3, "Remove": 1, "WriteUpdateWithXattrs": 2}
+		for t := 0; t < 1+r.Intn(2); t++ {
+			var ops []Op
+			for i := 0; i < 2+r.Intn(5); i++ {
+				ops = append(ops, g.e2op(g.weighted(w), prog.NHandles))
+			}
+			prog.Tasks = append(prog.Tasks, ops)
+		}
+		var ctl []Op
+		runs := 1 + r.Intn(3)
+		for i := 1; i <= runs; i++ {
+			fs := FeedSpec{ID: "ck", Handle: r.Intn(prog.NHandles), Coll: 0, Backfill: "resume", Ckpt: "cp", Run: i}
+			ctl = append(ctl, Op{Kind: "StartFeed", Feed: &fs})
+			if r.Chance(50) {
+				ctl = append(ctl, g.e2op("Set", prog.NHandles))
+			}
+			ctl = append(ctl, Op{Kind: "StopFeed", Feed: &fs}, Op{Kind: "WaitFeed", Feed: &fs}, Op{Kind: "GetRaw", Key: "cp:ck"})
+		}
+		prog.Tasks = append(prog.Tasks, ctl)
+		prog.NoLin = true // (the feed's own checkpoint writes are not in the clients' history)
+	case "term":
+		g.setupDocs(prog, 40)
+		nf := 2 + r.Intn(3)
+		var ids []FeedSpec
+		for i := 0; i < nf; i++ {
+			fs := FeedSpec{ID: fmt.Sprintf("f%d", i), Handle: r.Intn(2), Coll: r.Intn(2)}
+			switch r.Intn(6) {
+			case 0:
+				fs.KeysOnly = true
+			case 1:
+				fs.Bucket = true
+			case 2:
+				fs.Backfill = "zero"
+			}
+			prog.Feeds = append(prog.Feeds, fs)
+			ids = append(ids, fs)
+		}
+		w := weights{"Set": 6, "Add": 2, "Delete": 3, "Incr": 2, "WriteCas": 2, "SetXattrs": 1}
+		var wr []Op
+		for i := 0; i < 2+r.Intn(4); i++ {
+			wr = append(wr, g.e2op(g.weighted(w), 2))
+		}
+		prog.Tasks = append(prog.Tasks, wr)
+		var ctl []Op
+		usedClose := map[int]bool{}
+		deleted := false
+		for i := 0; i < 1+r.Intn(4) && !deleted; i++ {
+			switch t := r.Intn(10); {
+			case t < 4:
+				fs := ids[r.Intn(len(ids))]
+				ctl = append(ctl, Op{Kind: "StopFeed", Feed: &fs})
+			case t < 6:
+				ctl = append(ctl, Op{Kind: "DropColl", Coll: 1, Handle: r.Intn(2)})
+			case t < 7:
+				fs := FeedSpec{ID: fmt.Sprintf("dump%d", i), Handle: r.Intn(2), Coll: r.Intn(2), Backfill: "zero", Dump: true}
+				ctl = append(ctl, Op{Kind: "StartFeed", Feed: &fs})
+			case t < 9:
+				h := r.Intn(2)
+				if !usedClose[h] {
+					usedClose[h] = true
+					ctl = append(ctl, Op{Kind: "Close", Handle: h})
+				}
+			default:
+				h := r.Intn(2)
+				if !usedClose[h] {
+					ctl = append(ctl, Op{Kind: "CloseAndDelete", Handle: h})
+					deleted = true
+				}
+			}
+		}
+		// writes through a closed handle are expected to fail; keep the writer on handles it may lose
+		if r.Chance(50) {
+			prog.Tasks = append(prog.Tasks, ctl)
+		} else { // one controller per action: more interleavings between the terminating actions
+			for _, c := range ctl {
+				prog.Tasks = append(prog.Tasks, []Op{c})
+			}
+		}
+		prog.NoLin = true
+		prog.NoFeedOracle = true
+	case "shutdown":
+		g.p.ShortExp = true
+		g.p.ExpPct = 60
+		g.setupDocs(prog, 50)
+		// documents with near deadlines so that the expiry timer is armed (and fires while clients sleep)
+		for i, k := range g.keys {
+			prog.Setup = append(prog.Setup, Op{Kind: "Set", Key: k, Coll: 0, Body: strp(fmt.Sprintf(`{"e":%d}`, i)), ExpKind: 2, ExpVal: uint32(1 + r.Intn(4))})
+		}
+		if r.Chance(60) {
+			prog.Feeds = append(prog.Feeds, FeedSpec{ID: "f0", Handle: r.Intn(prog.NHandles), Coll: 0})
+		}
+		w := weights{"Set": 6, "Add": 2, "Delete": 3, "Incr": 2, "WriteCas": 2, "GetRaw": 3, "Touch": 3, "Update": 2, "SetXattrs": 1, "WriteSubDoc": 1}
+		sleepFirst := r.Chance(60)
+		for t := 0; t < 1+r.Intn(2); t++ {
+			var ops []Op
+			if sleepFirst && r.Chance(70) {
+				ops = append(ops, Op{Kind: "Sleep", Dur: 1 + r.Intn(5)})
+			}
+			for i := 0; i < 1+r.Intn(4); i++ {
+				ops = append(ops, g.e2op(g.weighted(w), prog.NHandles))
+			}
+			prog.Tasks = append(prog.Tasks, ops)
+		}
+		if r.Chance(40) {
+			fs := FeedSpec{ID: "late", Handle: r.Intn(prog.NHandles), Coll: 0, Backfill: []string{"", "zero"}[r.Intn(2)]}
+			prog.Tasks = append(prog.Tasks, []Op{{Kind: "StartFeed", Feed: &fs}})
+		}
+		for c := 0; c < 1+r.Intn(2); c++ {
+			var ops []Op
+			if sleepFirst {
+				ops = append(ops, Op{Kind: "Sleep", Dur: 1 + r.Intn(5)})
+			}
+			switch t := r.Intn(10); {
+			case t < 4:
+				ops = append(ops, Op{Kind: "CloseAndDelete", Handle: r.Intn(prog.NHandles)})
+			case t < 8:
+				ops = append(ops, Op{Kind: "Close", Handle: c % prog.NHandles})
+			default:
+				if prog.NColl > 1 {
+					ops = append(ops, Op{Kind: "DropColl", Coll: 1, Handle: r.Intn(prog.NHandles)})
+				} else {
+					ops = append(ops, Op{Kind: "Close", Handle: c % prog.NHandles})
+				}
+			}
+			prog.Tasks = append(prog.Tasks, ops)
+		}
+		prog.NoLin = true
+		prog.NoFeedOracle = true
 	}
 	return prog
 }
